@@ -110,23 +110,6 @@ def census (days : List Day) : String :=
 def showErr : LoadErr → String
   | .missing => "missing" | .cycle => "cycle" | .syntax => "syntax" | .model => "model" | .fuel => "fuel"
 
-def dirKey (d : Dir) : Int × Nat × Nat := (d.date, Kind.toNat d.kind, d.id)
-
-def keyLe (a b : Int × Nat × Nat) : Bool :=
-  a.1 < b.1 || (a.1 == b.1 && (a.2.1 < b.2.1 || (a.2.1 == b.2.1 && a.2.2 ≤ b.2.2)))
-
-def insertKey (x : Int × Nat × Nat) : List (Int × Nat × Nat) → List (Int × Nat × Nat)
-  | [] => [x]
-  | y :: ys => if keyLe x y then x :: y :: ys else y :: insertKey x ys
-
-def sortKeys (l : List (Int × Nat × Nat)) : List (Int × Nat × Nat) := l.foldr insertKey []
-
-/-- the property predicate on an observed journal: the observed directives are, as a multiset, exactly
-the expected ones, and the days come in date order -/
-def censusOK (expected observed : List Dir) : Bool :=
-  sortKeys (expected.map dirKey) == sortKeys (observed.map dirKey) &&
-  (observed.zip observed.tail).all (fun p => p.1.date ≤ p.2.date)
-
 def handleStr (fields : List String) : String :=
   match fields with
   | ["c19seq", n, m, spec] =>
